@@ -15,7 +15,7 @@ logging.disable(logging.CRITICAL)
 class C21(Check):
     pid = "C21"
     props_file = "Props/C21.v"
-    corr_imports = ["Ebpf.Isa", "Corr.Exec", "Ecat.Dispatch", "Corr.C22"]
+    corr_imports = ["Ebpf.Isa", "Corr.Exec", "Ecat.Dispatch", "Ecat.UserLoop", "Corr.C22", "Corr.C21"]
     shard = 60
     technique = ("Coq theorems (activation rewrites exactly command byte and working counter of the write datagrams, counts at most one error each, does nothing "
                  "with output disabled; the dispatcher enables nothing; in EVERY history a frame bypassing the group's program has no enabled write datagrams - "
@@ -119,7 +119,9 @@ class C21(Check):
     def run_impl(self, case):
         if case.get("kind") == "loop":
             try:
-                return self.run_loop(case["script"])
+                o = self.run_loop(case["script"])
+                case["_o"] = o
+                return o
             except Exception as e:      # noqa
                 return Err(8, f"{type(e).__name__}: {e}")
         b = case["_b"]
@@ -142,7 +144,14 @@ class C21(Check):
 
     def model_term(self, case):
         if case.get("kind") == "loop":
-            return None
+            o = case.get("_o")
+            if o is None or isinstance(o, Err) or not o["asm"]:
+                return None
+            # the two priming frames' answers never reach the loop (their futures are cancelled); from the third frame on every
+            # script entry is an event of the loop
+            H = bytes(14)
+            evs = ["UTimeout" if e is None else f"(URecv {ebpf_exec.cbytes(H + bytes.fromhex(e))})" for e in o["events"][2:]]
+            return f"(run_uloop {cnat(len(o['sent']))} {ebpf_exec.cbytes(H + bytes.fromhex(o['asm']))} {clist(evs)})"
         b = case["_b"]
         if isinstance(b, Err) or case.get("_o") is None:
             return None
@@ -151,6 +160,8 @@ class C21(Check):
                 f"VB (sterile {self.cotf(b)} {ebpf_exec.cbytes(bytes(14) + b['full'])})])")
 
     def model_value(self, case, o):
+        if case.get("kind") == "loop":
+            return [list(bytes(14) + bytes.fromhex(f)) for f in o["sent"]]
         e = o["errors"]
         if case["wkc_errors"] == 0:
             e = 0
@@ -201,7 +212,7 @@ class C21(Check):
         datagrams disabled."""
         from .rig import Rig
         from ebpfcat.ebpfcat import FastEtherCat, FastSyncGroup, Device, TerminalVar
-        res = {"frames": 0, "lost": 0, "bad": []}
+        res = {"frames": 0, "lost": 0, "bad": [], "sent": [], "events": [], "asm": None}
 
         class Dev(Device):
             a = TerminalVar()
@@ -227,6 +238,8 @@ class C21(Check):
                 if idx != getattr(sg_, "packet_index", None):
                     return [resp]
                 res["frames"] += 1
+                res["sent"].append(bytes(req).hex())
+                res["asm"] = bytes(sg_.asm_packet).hex()
                 for start, stop, cmd in sg_.packet.on_the_fly:
                     if req[start] != 0:
                         res["bad"].append(f"cyclic frame #{state['k']} left user space with command {req[start]} (not NOP) in the write datagram at {start}, "
@@ -235,6 +248,7 @@ class C21(Check):
                 state["k"] += 1
                 if what == "lost":
                     res["lost"] += 1
+                    res["events"].append(None)
                     return []
                 r = bytearray(resp)
                 if what == "active":
@@ -245,6 +259,7 @@ class C21(Check):
                         r[stop - 2], r[stop - 1] = 1, 0
                 else:
                     r[3] &= 0xfe
+                res["events"].append(bytes(r).hex())
                 return [bytes(r)]
             rig.connect(deliver)
             devs = [Dev(t) for t in rig.terms]
